@@ -93,15 +93,6 @@ class Gen:
             return self.canary("str"), "str"
         return self.canary("int"), "int"
 
-    def value(self, depth: int, maxdepth: int) -> Any:
-        """A value placed at *depth* (1 = value of a top-level claim)."""
-        rng = self.rng
-        if depth >= maxdepth or rng.random() < 0.35:
-            return self.leaf()[0]
-        if rng.random() < 0.6:
-            return self.obj(depth + 1, maxdepth, [], [])
-        return [self.value(depth + 1, maxdepth) for _ in range(rng.choice([1, 2, 3]))]
-
     def obj(self, depth: int, maxdepth: int, path: list[Any], via: list[str], under_sensitive: bool = False) -> dict[str, Any]:
         """A dict whose keys live at *depth*; records outermost sensitive names (with their path)."""
         rng = self.rng
@@ -164,12 +155,10 @@ class Gen:
             self.planted = saved
 
 
-def gen_claims(rng: random.Random, force: str | None = None) -> tuple[dict[str, Any], Gen]:
+def gen_claims(rng: random.Random) -> tuple[dict[str, Any], Gen]:
     g = Gen(rng)
     maxdepth = rng.choice([1, 2, 3, 4, 4])
     claims = g.obj(1, maxdepth, [], [])
-    if force == "flat":
-        pass
     if not g.planted:
         k, w, variant = g.sensitive_key()
         before = len(g.all_canaries)
@@ -412,7 +401,7 @@ def main(tier: str, seed: int) -> int:
         "only the outermost sensitive name on a path is required to stay visible (its value, including inner names, is replaced)",
     ]
     n = shard.ncpu()
-    total = 3600 if tier == "quick" else 160_000
+    total = 6000 if tier == "quick" else 160_000
     per = max(50, total // n)
     jobs = [{"tier": tier, "seed": seed * 7919 + i + 1, "count": per} for i in range(n)]
     for res in shard.pmap("checks.c35", "run_shard", jobs, timeout=300 if tier == "quick" else 1500):
